@@ -10,20 +10,13 @@
   each in list order, then `t.after`; for an internal transition just `t.after`; for an event that
   executes nothing, no such call; nothing lies between events.  (`C18_flat_exact`, `C18_flat_history`.)
 
-  NESTED (`_final_check` of nesting.py, `Model/Final.lean`; spec `Model/Spec/C18.lean`).
-  `C18_nested_exact` — the owners whose on_final lists a transition runs are exactly the states that
-  `fires`, children first, the machine last — is FALSE for the code as it is:
-
-    * item 10  `_final_check`'s loop variable `is_final` doubles as the return value, so a state whose
-               active children are not all final counts as final for its parent when the LAST one does
-               (`…_counterexample_leak`; it also provokes an AttributeError at the root scope,
-               `…_counterexample_attribute_error`);
-    * item 11  a final-flagged state that is entered together with active children that are not all
-               final never runs its own on_final callbacks (`…_counterexample_compound`).
-
-  `C18_nested_exact_partial` holds for the code as it is under the two decidable exclusions;
-  `C18_nested_exact_patched` is the full statement for the code with proposed_fixes/C18_1.diff and
-  C18_2.diff applied (`C18_nested_exact_leak_patched`: with C18_1.diff alone item 11 remains).
+  NESTED (`_final_check` of nesting.py, `Model/Final.lean` = the code after fix: commits 919a36b and
+  576f1fd; spec `Model/Spec/C18.lean`).  `C18_nested_exact`: for every state tree, every placement of final
+  flags and callbacks, every configuration and every entered set a transition can produce, the owners
+  whose on_final lists the transition runs are exactly the states that `fires`, children first, the
+  machine last, and the check never raises.  The three defects of the tree before the fixes (DESIGN 6
+  items 10, 11, 18) are kept as regression examples: the model of the repaired code gives the specified
+  answer on their witnesses; a return of any of them is a VIOLATION (monitor) of the check.
 -/
 import Proofs.C18
 import Props.C01
@@ -102,36 +95,20 @@ theorem C18_flat_no_final_otherwise (cfg : Cfg) (w : Option Trans)
 
 /-! ## hierarchical machines -/
 
-/-- **C18, nested, FULL STRENGTH** (kept visible; FALSE for the code as it is, see the
-counterexamples): for every state tree, every placement of final flags and callbacks, every
-configuration and every entered set a transition can produce, `_final_check` returns — without
-raising — exactly the owners that fire, children first, the machine last. -/
-def C18_nested_exact : Prop :=
-  ∀ (D : Defs) (E : List Nat) (roots : List Tree), enteredWF E roots = true →
-    finalCheckRoot D E roots = .ok (expected D E roots)
-
-/-- the part that holds for the code as it is: the configuration has no state whose last active child
-counts as final while another does not (item 10), and no final-flagged state was entered with active
-children that are not all final (item 11) -/
-theorem C18_nested_exact_partial (D : Defs) (E : List Nat) (roots : List Tree)
-    (hW : enteredWF E roots = true)
-    (h10 : noLeakL D roots = true) (h11 : noCompoundL D E roots = true) :
-    finalCheckRoot D E roots = .ok (expected D E roots) := by
-  rw [← finalCheckRootV_asis]
-  exact finalCheckRootV_spec Variant.asIs D E roots (Or.inr h10) (Or.inr h11) hW
-
-/-- the full statement for the code with both candidate patches applied -/
-theorem C18_nested_exact_patched (D : Defs) (E : List Nat) (roots : List Tree)
+/-- **C18, nested, full strength**: for every state tree, every placement of final flags and
+callbacks, every configuration and every entered set a transition can produce (`enteredWF`: the
+entered states are active afterwards, and below an entered state everything active was entered),
+`_final_check` returns — without raising — exactly the owners that fire, children first, the machine
+last. -/
+theorem C18_nested_exact (D : Defs) (E : List Nat) (roots : List Tree)
     (hW : enteredWF E roots = true) :
-    finalCheckRootV Variant.patched D E roots = .ok (expected D E roots) :=
-  finalCheckRootV_spec Variant.patched D E roots (Or.inl rfl) (Or.inl rfl) hW
+    finalCheckRoot D E roots = .ok (expected D E roots) :=
+  finalCheckRoot_spec D E roots hW
 
-/-- with proposed_fixes/C18_1.diff alone (loop variable no longer returned) only item 11 remains;
-in particular the AttributeError at the root scope is gone -/
-theorem C18_nested_exact_leak_patched (D : Defs) (E : List Nat) (roots : List Tree)
-    (hW : enteredWF E roots = true) (h11 : noCompoundL D E roots = true) :
-    finalCheckRootV ⟨true, false⟩ D E roots = .ok (expected D E roots) :=
-  finalCheckRootV_spec ⟨true, false⟩ D E roots (Or.inl rfl) (Or.inr h11) hW
+/-- the callbacks run are those of the owners that fire, in that order -/
+theorem C18_nested_calls (D : Defs) (E : List Nat) (roots : List Tree) (hW : enteredWF E roots = true) :
+    ∃ os, finalCheckRoot D E roots = .ok os ∧ runCalls D os = (expected D E roots).flatMap D.cbsOf :=
+  ⟨_, C18_nested_exact D E roots hW, rfl⟩
 
 /-- `expected` is `[s | fires s]`: a state's on_final list is scheduled iff the state is active and fires -/
 theorem C18_nested_owner_iff (D : Defs) (E : List Nat) (roots : List Tree) (i : Nat) :
@@ -166,67 +143,43 @@ theorem C18_nested_once (D : Defs) (E : List Nat) (roots : List Tree) (h : (idsL
     (expected D E roots).Nodup :=
   expected_nodup D E roots h
 
-/-! ### the defects: witnesses decided by evaluation
-
-ids: the numbers below; `final` flags and entered sets as in the comments.  Each witness is a
-configuration reachable on the real classes (harness corpus `corpus/C18/*.json`). -/
+/-! ### regression witnesses of the three repaired defects (corpus/C18/*.json), decided by evaluation -/
 
 def defsOf (finals : List Nat) : Defs :=
   { final := fun s => finals.contains s, onFinal := fun s => [100 + s], machineOnFinal := [100] }
 
-/-- item 10: parallel state 1 with children 2 (not final) and 3 (final), all just entered (`to_P`) -/
+/-- item 10: parallel state 1 with children 2 (not final) and 3 (final), all just entered (`to_P`):
+only 3 fires, whatever the order of the children -/
 def witnessLeak : List Tree := [.node 1 [.node 2 [], .node 3 []]]
-
 example : enteredWF [1, 2, 3] witnessLeak = true := by decide
-/-- the machine's on_final runs although state 1 has a non-final active child -/
-theorem C18_nested_exact_counterexample_leak :
-    finalCheckRoot (defsOf [3]) [1, 2, 3] witnessLeak = .ok [.state 3, .machine] ∧
-    expected (defsOf [3]) [1, 2, 3] witnessLeak = [.state 3] := by decide
-
-/-- with the children in the other order the code is right: the verdict depends on the order -/
+example : finalCheckRoot (defsOf [3]) [1, 2, 3] witnessLeak = .ok [.state 3] := by decide
 example : finalCheckRoot (defsOf [3]) [1, 3, 2] [.node 1 [.node 3 [], .node 2 []]] = .ok [.state 3] := by decide
 
-/-- item 18: regions 2 = {4} and 3 = {5 final} of parallel state 1; only 4 was entered (4 not final) -/
+/-- item 18: regions 2 = {4} and 3 = {5 final} of parallel state 1; only 4 was entered (4 not final):
+nothing fires and nothing is raised -/
 def witnessAttr : List Tree := [.node 1 [.node 2 [.node 4 []], .node 3 [.node 5 []]]]
-
 example : enteredWF [4] witnessAttr = true := by decide
-theorem C18_nested_exact_counterexample_attribute_error :
-    finalCheckRoot (defsOf [5]) [4] witnessAttr = .attributeError ∧
-    expected (defsOf [5]) [4] witnessAttr = [] := by decide
+example : finalCheckRoot (defsOf [5]) [4] witnessAttr = .ok [] := by decide
 
-/-- item 11: final-flagged compound 1 entered together with its non-final initial child 2 -/
+/-- item 11: final-flagged compound 1 entered together with its non-final initial child 2: 1 fires,
+its parent (the machine) does not -/
 def witnessCompound : List Tree := [.node 1 [.node 2 []]]
-
 example : enteredWF [1, 2] witnessCompound = true := by decide
-theorem C18_nested_exact_counterexample_compound :
-    finalCheckRoot (defsOf [1]) [1, 2] witnessCompound = .ok [] ∧
-    expected (defsOf [1]) [1, 2] witnessCompound = [.state 1] := by decide
+example : finalCheckRoot (defsOf [1]) [1, 2] witnessCompound = .ok [.state 1] := by decide
 
-theorem C18_nested_exact_counterexample : ¬ C18_nested_exact := by
-  intro h
-  have h1 := h (defsOf [3]) [1, 2, 3] witnessLeak (by decide)
-  rw [C18_nested_exact_counterexample_leak.1, C18_nested_exact_counterexample_leak.2] at h1
-  exact absurd h1 (by decide)
-
-/-- the exclusions are exactly what the witnesses violate -/
-example : noLeakL (defsOf [3]) witnessLeak = false ∧ noCompoundL (defsOf [3]) [1, 2, 3] witnessLeak = true := by decide
-example : noLeakL (defsOf [5]) witnessAttr = false := by decide
-example : noLeakL (defsOf [1]) witnessCompound = true ∧ noCompoundL (defsOf [1]) [1, 2] witnessCompound = false := by decide
-
-/-- the patched code on the three witnesses -/
-example : finalCheckRootV Variant.patched (defsOf [3]) [1, 2, 3] witnessLeak = .ok [.state 3] ∧
-    finalCheckRootV Variant.patched (defsOf [5]) [4] witnessAttr = .ok [] ∧
-    finalCheckRootV Variant.patched (defsOf [1]) [1, 2] witnessCompound = .ok [.state 1] := by decide
+/-- a later region completes while an earlier one is still not final (regions 2 = {5}, 3 = {6 final},
+4 = {7 final} of parallel 1; 7 just entered): 7 and its region fire although region 2 comes first -/
+example : finalCheckRoot (defsOf [6, 7]) [7] [.node 1 [.node 2 [.node 5 []], .node 3 [.node 6 []], .node 4 [.node 7 []]]]
+    = .ok [.state 7, .state 4] := by decide
 
 /-! ### non-vacuity -/
 
 /-- the README example (A -> B with regions X [final], Y = {yI, yII final}, Z = {zI, zII final}):
 B=1, X=2, Y=3, Z=4, yII=5, zII=6; after `final_Z` (enters zII only) Z, B and the machine fire, in
-this order; all hypotheses of the partial theorem hold -/
+this order; the hypotheses of the theorems hold -/
 def readme : List Tree := [.node 1 [.node 2 [], .node 3 [.node 5 []], .node 4 [.node 6 []]]]
 
-example : enteredWF [6] readme = true ∧ noLeakL (defsOf [2, 5, 6]) readme = true ∧
-    noCompoundL (defsOf [2, 5, 6]) [6] readme = true ∧ (idsL readme).Nodup := by decide
+example : enteredWF [6] readme = true ∧ (idsL readme).Nodup := by decide
 example : finalCheckRoot (defsOf [2, 5, 6]) [6] readme = .ok [.state 6, .state 4, .state 1, .machine] := by decide
 example : runCalls (defsOf [2, 5, 6]) [.state 6, .state 4, .state 1, .machine] = [106, 104, 101, 100] := by decide
 /-- one step earlier (`final_Y`, zI = 7 still active in Z): only yII and Y fire -/
